@@ -88,6 +88,18 @@ Theorem C05_pins_failure_cuts_short :
   cmp_keys (ptr (pin_trace d p (Some n))) = firstn (S n) (all_probes p).
 Proof. exact PinsProofs.trace_cut. Qed.
 
+(* keys / values / items (min, max) on a tree: one pin of the root over both range-end searches *)
+Theorem C05_range2_released :
+  forall (p1 p2 : list (nat * list Z)) (lowfound : bool) (c : option nat) (P : list nat),
+  pins_after (ptr (range2_tr p1 p2 lowfound c)) P = P /\ unuse_ok (ptr (range2_tr p1 p2 lowfound c)) P = true.
+Proof. exact PinsProofs.range2_balanced. Qed.
+
+Theorem C05_range2_protect :
+  forall (id : nat) (ps : list Z) (rest p2 : list (nat * list Z)) (lowfound : bool) (c : option nat) (P : list nat),
+  Forall (fun o => In (onode o) (opins o) /\ In id (opins o))
+         (observe (ptr (range2_tr ((id, ps) :: rest) p2 lowfound c)) P).
+Proof. exact PinsProofs.range2_protect. Qed.
+
 (* a three-level tree: the three disciplines differ, and a raising comparison is really cut short *)
 Definition ex_tree : wtr :=
   WTN [WTK 0 (WTN [WTK 0 (WTL [1; 2]); WTK 5 (WTL [5; 6])]);
@@ -101,7 +113,10 @@ Example C05_pins_example :
     [PUse 0%nat; PCmp 0%nat 10; PUnuse 0%nat; PUse 4%nat; PCmp 4%nat 15; PUse 6%nat; PCmp 6%nat 16; PCmp 6%nat 15;
      PUnuse 6%nat; PUnuse 4%nat] /\
   ptr (pin_trace DSet (path_probes Z false (fst (number ex_tree 0%nat)) 15) (Some 1%nat)) =
-    [PUse 0%nat; PCmp 0%nat 10; PUse 4%nat; PCmp 4%nat 15; PUnuse 4%nat; PUnuse 0%nat].
+    [PUse 0%nat; PCmp 0%nat 10; PUse 4%nat; PCmp 4%nat 15; PUnuse 4%nat; PUnuse 0%nat] /\
+  model_obs2 ex_tree 6 15 = [(10, [0%nat]); (5, [0; 1]%nat); (6, [0; 1; 3]%nat); (10, [0%nat]); (15, [0; 4]%nat);
+                             (16, [0; 4; 6]%nat); (15, [0; 4; 6]%nat)] /\
+  model_obs2 ex_tree 17 20 = [(10, [0%nat]); (15, [0; 4]%nat); (16, [0; 4; 6]%nat)].
 Proof. vm_compute. repeat split. Qed.
 Print Assumptions C05_pins_released.
 Print Assumptions C05_pins_protect.
@@ -109,3 +124,5 @@ Print Assumptions C05_write_path_pinned.
 Print Assumptions C05_range_root_pinned.
 Print Assumptions C05_pins_comparisons.
 Print Assumptions C05_pins_failure_cuts_short.
+Print Assumptions C05_range2_released.
+Print Assumptions C05_range2_protect.
